@@ -16,7 +16,7 @@ const KIB: u64 = 1024;
 const STACKS: [(&str, u64); 5] = [("256KiB", 256 * KIB), ("1MiB", 1024 * KIB), ("8MiB", 8192 * KIB), ("64MiB", 65536 * KIB), ("unlimited", u64::MAX)];
 const ENVS: [&str; 3] = ["minimal", "+16KiB-one-variable", "+64KiB-in-1000-variables"];
 const LENS: [&str; 9] = ["1", "2", "7", "63", "1000", "4095", "alt-1-4095", "multibyte-1000", "60000"];
-const OPTS: [&str; 5] = ["none", "-n100000", "-s-huge", "-n100000+3KiB-initial", "-s131000"];
+const OPTS: [&str; 6] = ["none", "-n100000", "-s-huge", "-n100000+3KiB-initial", "-s131000", "-t"];
 
 fn spec(t: Tier) -> Spec {
     Spec {
@@ -106,6 +106,10 @@ fn run_point(ctx: &mut Ctx, p: &Point) -> Option<(String, String)> {
     }
     if p.opt == "-s-huge" {
         args.extend(["-s".into(), "2000000000".into()]);
+    }
+    if p.opt == "-t" {
+        // (the trace lines share standard error with the diagnostic)
+        args.push("-t".into());
     }
     if p.opt == "-s131000" {
         // a user limit just below the 128 KiB default: the pointer charge must still bind
@@ -208,7 +212,9 @@ fn run_point(ctx: &mut Ctx, p: &Point) -> Option<(String, String)> {
                 if pos > bp {
                     return Some(("C06 exit 1 but the oversized argument was handed to exec".into(), detail(format!("{pos} arguments delivered, big one at #{bp}"))));
                 }
-                if err.trim().is_empty() {
+                // (under -t the command lines are traced on standard error too: they are not the diagnostic)
+                let vrec_s = vrec.to_string_lossy().to_string();
+                if !err.lines().any(|l| !l.trim().is_empty() && !l.starts_with(&vrec_s)) {
                     return Some(("C06 oversized argument refused without a diagnostic".into(), detail(String::new())));
                 }
                 ctx.rep.count("single_big_argument_refused_with_exit_1", 1);
@@ -320,7 +326,7 @@ fn run(ctx: &mut Ctx) {
                 }
                 ctx.progress(job);
                 // without and with a user limit above every budget (-s must not lift the per-string cap)
-                for (oi, opt) in [(0usize, "none"), (2, "-s-huge")] {
+                for (oi, opt) in [(0usize, "none"), (2, "-s-huge"), (5, "-t")] {
                     let p = Point { stack: STACKS[s], env: ENVS[0], len: "7", opt, big: Some((pos, big)), nargs_override: Some(12), soft_only: false };
                     if let Some((sig, detail)) = run_point(ctx, &p) {
                         ctx.rep.violation(&sig, detail, json!({"prop":"C06","stack":s,"env":0,"len":2,"opt":oi,"big":[pos,big]}));
